@@ -140,7 +140,7 @@ func jsonValue(id string, depth int) tengo.Object {
 		is := []int64{0, 1, -1, 42, 9007199254740993, -9223372036854775808, 9223372036854775807}
 		return &tengo.Int{Value: is[vf.Choice(id+".isel", len(is))]}
 	case 1:
-		fs := []float64{0.5, -2.25, 1e21, 1e-7, 3}
+		fs := []float64{0.5, -2.25, 1e21, 1e-7, 3, 1e19, -1e19, 1e20, 9223372036854775808.0, 18446744073709551616.0, -9223372036854775808.0, 4503599627370497.5, 123456789012345680.0}
 		return &tengo.Float{Value: fs[vf.Choice(id+".fsel", len(fs))]}
 	case 2:
 		n := vf.Choice(id+".slen", 3)
@@ -230,5 +230,14 @@ func C18_RoundTrip() {
 	res = vf.Guard(func() { back, err = tjson.Decode(enc) }, 3000000)
 	vf.Assert(res == 0 && err == nil, "decoding the encoding succeeds: "+vf.LastGuard())
 	vf.Assert(jsonSame(v, back), "decode(encode(v)) equals v")
+	// Go reads the encoding of a number as the same number
+	switch w := v.(type) {
+	case *tengo.Float:
+		g, perr := strconv.ParseFloat(string(enc), 64)
+		vf.Assert(perr == nil && g == w.Value, "Go reads the encoding of a float as the same number: "+string(enc))
+	case *tengo.Int:
+		g, perr := strconv.ParseInt(string(enc), 10, 64)
+		vf.Assert(perr == nil && g == w.Value, "Go reads the encoding of an int as the same number: "+string(enc))
+	}
 	vf.Reach("roundtrip")
 }
